@@ -19,6 +19,11 @@ NEEDS = {
     'S2-C12': "two consecutive explicit steps (the ghost layer of the returned variable is stale); same mechanism as S2-C01 seen through C12",
     'S2-C14': "0 + CellVariable, i.e. the built-in sum() over CellVariables; the result is the operand itself",
     'S2-C15': "faceLocations() on a 1-D grid followed by an in-place edit of the returned FaceVariable",
+    'S3-C02': "PolarGrid2D, convectionUpwindTerm, theta spacing whose first and last cells differ in size, negative u_theta on the theta_max faces",
+    'S3-C07': "PolarGrid2D, upwind term, positive theta velocity through the theta=0 face, at least two radial cells",
+    'S3-C11': "a second upwindMean on the same variable (or a boundary face with exactly zero velocity); float data with ghost != adjacent interior value",
+    'S3-C13': "a field with a minute non-zero jump (e.g. 1e-200) next to an ordinary one, and a non-clipping limiter (CHARM, ospre, VanAlbada1)",
+    'S3-C17': "SphericalGrid3D, non-periodic azimuth, Robin or inhomogeneous Neumann data on the back face",
     'S2-C16': "assigning FaceVariable.yvalue on CylindricalGrid2D / PolarGrid2D / 3-D curvilinear grids (subclasses of Grid2D/Grid3D) where the label is not documented",
 }
 
@@ -30,6 +35,8 @@ BEFORE = {
     'S2-C09': "C09 exit 0: the entry guard of solveExplicitPDE was not covered by any rule; P4e added",
     'S2-C10': "C10 exit 2 (np.diff / np.pad outside the modelled numpy subset); both modelled now, G1 reports the ghost sizes",
     'S2-C14': "C14 exit 2 (branch on a symbolic scalar); path splitting on symbolic scalar conditions added, plus concrete scalar operands 0 and 2",
+    'S3-C02': "C02 exit 0 (only the generic cell was expanded; caught by C01.R4, C05.E3, C06.U3, C07.M2, C08.A2); C02.K3 boundary-face flux consistency added",
+    'S3-C13': "C13 exit 0: F8 only demanded a total, non-zero _fsign; 'bounded away from zero' added to F8",
     'S-C04': "C04 silent in round 1 (caught by C09 only); C04.S8 added",
     'S-C15': "C05 exit 2 in round 1 (case-split budget); recursive case split",
 }
@@ -51,7 +58,7 @@ def main():
         meta = {
             'id': d,
             'breaks_property': prop,
-            'origin': 'independent sub-agent given only the property text and a scratch worktree' + (' (second round)' if d.startswith('S2') else ''),
+            'origin': 'independent sub-agent given only the property text and a scratch worktree' + (' (second round)' if d.startswith('S2') else ' (third round)' if d.startswith('S3') else ' (fourth round)' if d.startswith('S4') else ''),
             'files_changed': files,
             'needs_to_manifest': NEEDS.get(d) or old.get('needs_to_manifest', ''),
             'confirmed_by_me': {
@@ -76,7 +83,7 @@ def main():
 def table():
     """markdown table for DESIGN.md"""
     rows = []
-    for d in sorted(os.listdir(SEEDED), key=lambda s: (s.startswith('S2'), s)):
+    for d in sorted(os.listdir(SEEDED), key=lambda s: (s.split('-')[0].replace('S', '') or '1', s)):
         mp = os.path.join(SEEDED, d, 'meta.json')
         if not os.path.exists(mp):
             continue
